@@ -36,6 +36,7 @@ NO_PATTERN_SOURCES = {
     'use-walrus-if#nested': 'def f(g, c):\n    if c:\n        x = g()\n        if x:\n            print(x)\n    y = g()\n    if y:\n        print(y)\n    return 1\n',
     'use-walrus-if#loop': 'def f(g, c):\n    for _ in c:\n        x = g()\n        if x is None:\n            print(x)\n    try:\n        y = g()\n        if not y:\n            print(y)\n    finally:\n        pass\n',
 }
+SOURCES['order-imports'] = 'import sys\nimport os\n\nx = 1\nimport zlib\nimport abc\nprint(sys, os, zlib, abc, x)\n'
 DONTCARE = {'harden-pickle-load#nested': {3}, 'use-defusedxml#nested': {3}, 'https-connection#nested': {3}}
 
 
@@ -54,7 +55,7 @@ def _run(name, exclude, include):
 BASE = {}
 # per-codemod site markers (default: the stripped source line); unused-imports re-flows the import statement, so its
 # sites are identified by the imported name
-MARKERS = {'unused-imports': {2: 'path', 4: 'getcwd'}}
+MARKERS = {'unused-imports': {2: 'path', 4: 'getcwd'}, 'order-imports': {1: 'import sys\nimport os', 5: 'import zlib\nimport abc'}}
 
 
 def _kept(name, L, src_lines, out):
